@@ -1634,6 +1634,62 @@ def check_refusal(rep, rule, c, what, cond_texts, exc, env=None, loop_values=Non
         rep.unk(rule, c.fi.site, what, detail)
         return False
     if not ok:
+        # the refusal may sit in a private helper that the analysis could not open (it defines a local function, is a generator,
+        # uses try / with ...): then "no such raise here" says nothing
+        try:
+            idx_ = c.idx if hasattr(c, "idx") else None
+            fi_ = c.fi
+            for call in ast.walk(fi_.node):
+                if not isinstance(call, ast.Call):
+                    continue
+                h = None
+                if isinstance(call.func, ast.Attribute) and isinstance(call.func.value, ast.Name) and call.func.value.id in ("self", "cls") and \
+                        fi_.cls is not None and call.func.attr.startswith("_") and not call.func.attr.startswith("__") and idx_ is not None:
+                    h = idx_.lookup_method(fi_.cls, call.func.attr)
+                elif isinstance(call.func, ast.Name) and call.func.id.startswith("_") and idx_ is not None:
+                    h = idx_.resolve_function(fi_.module, call.func.id)
+                if h is not None and h.node is not fi_.node and any(
+                        isinstance(r, ast.Raise) and r.exc is not None and (exc is None or exc in ast.unparse(r.exc)[:len(exc) + 2])
+                        for r in ast.walk(h.node)) and \
+                        any(isinstance(n_, (ast.Yield, ast.YieldFrom, ast.Try, ast.With, ast.While, ast.Lambda)) or
+                            (isinstance(n_, ast.FunctionDef) and n_ is not h.node) for n_ in ast.walk(h.node)):
+                    rep.unk(rule, c.fi.site, what, f"{detail}; but {h.qual}, which this function calls and which raises {exc or 'exceptions'}, "
+                            "could not be opened (local function / generator / try / with / while inside): the refusal may be there")
+                    return False
+        except Exception:
+            pass
+        # the refusal is decided by the *value* a private helper hands back (a message or None, the first objection of a generator):
+        # `msg = self._mismatch(x)` / `if msg is not None: raise ValueError(msg)`
+        try:
+            binds_ = {}
+            for a_ in ast.walk(c.fi.node):
+                if isinstance(a_, ast.Assign) and len(a_.targets) == 1 and isinstance(a_.targets[0], ast.Name):
+                    binds_.setdefault(a_.targets[0].id, []).append(a_.value)
+
+            def helper_call(e_):
+                for x in ast.walk(e_):
+                    if isinstance(x, ast.Call):
+                        fn_ = x.func
+                        nm_ = fn_.attr if isinstance(fn_, ast.Attribute) else (fn_.id if isinstance(fn_, ast.Name) else "")
+                        if nm_.startswith("_") and not nm_.startswith("__"):
+                            return nm_
+                return None
+            for r_ in ast.walk(c.fi.node):
+                if not isinstance(r_, ast.If) or not any(isinstance(y, ast.Raise) for y in r_.body):
+                    continue
+                names_ = [x.id for x in ast.walk(r_.test) if isinstance(x, ast.Name)]
+                via_ = helper_call(r_.test) or next((helper_call(v_) for n_ in names_ for v_ in binds_.get(n_, []) if helper_call(v_)), None)
+                if via_:
+                    rep.unk(rule, c.fi.site, what, f"{detail}; but a raise of this function is decided by what the helper `{via_}` returns "
+                            "(a message, an objection or nothing), which the condition extraction does not open: the refusal may be there")
+                    return False
+        except Exception:
+            pass
+        # exceptions as control flow (`try: d[k] / except KeyError: ... / else: raise`): the path conditions are not extracted
+        if any(isinstance(n_, ast.Try) and n_.handlers for n_ in ast.walk(c.fi.node)):
+            rep.unk(rule, c.fi.site, what, f"{detail}; but the function uses try / except as control flow, whose paths the condition "
+                    "extraction does not follow: the refusal may be decided there")
+            return False
         # a divisibility / rounding test written with other arithmetic over the same quantities may be the same test
         # (x % (a // b) vs (x * b) % a when b divides a): that is undecided, not refuted
         try:
